@@ -83,6 +83,24 @@ site("QVR_WORD_SHIFT", "src/qvector/mod.rs", r"unsafe fn rank_unchecked\(&self, 
 site("QVR_WORD_MASK", "src/qvector/mod.rs", r"unsafe fn rank_unchecked\(&self, symbol: u8, i: usize\)", r"let offset = i & (\w+);")
 site("QV_LEN_SHIFT", "src/qvector/mod.rs", r"pub fn len\(&self\) -> usize \{", r"self\.position >> (\w+)")
 
+# ---- qvector/rs_qvector/rs_support_plain.rs ------------------------------------------
+RSP = "src/qvector/rs_qvector/rs_support_plain.rs"
+site("SB_SHIFT", RSP, r"fn new\(sbc: &\[usize; 4\]\) -> Self", r"\(sbc\[symbol\] as u128\) << (\w+);")
+site("SB_SHIFT_GR", RSP, r"fn get_rank\(&self, symbol: u8, block_id: usize\)", r"let sb = \(data >> (\w+)\) as usize;")
+site("BLK_BITS_GR", RSP, r"fn get_rank\(&self, symbol: u8, block_id: usize\)", r"\(block_id - not_first\) \* (\w+)\)")
+site("BLK_MASK_GR", RSP, r"fn get_rank\(&self, symbol: u8, block_id: usize\)", r"as usize & (\w+)\) \* not_first")
+site("SB_SHIFT_GC", RSP, r"fn get_superblock_counter\(&self, symbol: u8\)", r"\} >> (\w+)\) as usize")
+site("BLK_LIMIT", RSP, r"fn set_block_counters\(&mut self", r"assert!\(counter < \(([^)]*)\)\);")
+site("SET_BLOCK_ID_LIMIT", RSP, r"fn set_block_counters\(&mut self", r"assert!\(block_id < (\w+)\);")
+site("BLK_BITS", RSP, r"fn set_block_counters\(&mut self", r"<< \(\(block_id - 1\) \* (\w+)\);")
+site("BLK_MASK_BP", RSP, r"pub fn block_predecessor\(&self", r"let curr_cnt = \(cnt & (\w+)\) as usize;")
+site("BLK_BITS_BP", RSP, r"pub fn block_predecessor\(&self", r"cnt >>= (\w+);")
+site("BLOCKS_IN_SB", RSP, r"impl SuperblockPlain \{", r"const BLOCKS_IN_SUPERBLOCK: usize = (\w+);")
+site("RS_BLOCKS_IN_SB", RSP, r"impl<const B_SIZE: usize> RSSupportPlain<B_SIZE> \{\s*const SELECT", r"const BLOCKS_IN_SUPERBLOCK: usize = (\w+);")
+site("SELECT_NUM_SAMPLES", RSP, r"impl<const B_SIZE: usize> RSSupportPlain<B_SIZE> \{\s*const SELECT", r"const SELECT_NUM_SAMPLES: usize = ([^;]*);")
+site("MAX_LEN", RSP, r"fn new\(qv: &QVector\) -> Self", r"assert!\(qv\.len\(\) < \(([^)]*)\)\);")
+site("RANK_BLOCK_MASK", RSP, r"fn rank_block\(&self, symbol: u8, i: usize\)", r"\.get_rank\(symbol, block_index & (\w+)\)")
+
 
 def gen_consts():
     out = ["(* GENERATED by tools/gen_from_src.py from /repo sources. Do not edit. *)",
